@@ -7,6 +7,7 @@
 package util
 
 import (
+	"errors"
 	"os"
 	"path"
 	"path/filepath"
@@ -131,7 +132,17 @@ func (info *unixFileInfo) fstatat(fd int, name string) (err error) {
 // Unlike filepath.Walk, the Sys() method of the os.FileInfo object passed to
 // walkFn will be of type golang.org/x/sys/unix.Stat_t.
 func Walk(root string, walkFn filepath.WalkFunc) error {
-	if start, err := os.Open(root); err != nil {
+	if start, err := os.OpenFile(root, os.O_RDONLY|unix.O_NOFOLLOW, 0); err != nil {
+		// A symbolic link is not followed, even if it is the root.
+		info := unixFileInfo{name: path.Base(root)}
+		if errors.Is(err, unix.ELOOP) &&
+			info.fstatat(unix.AT_FDCWD, root) == nil &&
+			info.mode&os.ModeSymlink != 0 {
+			if err := walkFn(root, &info, nil); err != filepath.SkipDir {
+				return err
+			}
+			return nil
+		}
 		return walkFn(root, nil, err)
 	} else {
 		info := unixFileInfo{name: path.Base(root)}
